@@ -13,6 +13,7 @@ def units():
 
 def extra(tier, seed):
     out = [run_gen("core._iter_template_permutations/count-ranges", ("C12",), c_match.gen_permutations, tier == "thorough"),
+           run_gen("core._iter_template_permutations/enumeration", ("C12",), c_match.gen_enumeration, tier == "thorough"),
            run_gen("core.match_template/dispatch", ("C12",), c_match.gen_dispatch, tier == "thorough")]
     if tier == "thorough":
         out.append(lean_lemma("lemmas/Slack.lean", ("C12",), os.path.join(HERE, "lemmas", "Slack.lean"), "slack_bound"))
